@@ -10,7 +10,9 @@
    more bit that decides whether a step is refused: propagate_fft raises NotImplementedError
    *before* looking at the type when any field of the wavefront carries fitted tilt
    (propagate.py:_has_tilt).  A model over the type alone would therefore not be a function; the
-   state of the model is the pair (type, tilted). *)
+   state of the model is the pair (type, content), the content being: fields without tilt, fields
+   with tilt, or no fields at all (every field was clipped away by disjoint apertures or thrown
+   off the grid; such a wavefront is legitimate, dark, and has no tilt to carry). *)
 From LV Require Export Lib.Base.
 
 (* type of a Wavefront: lentil.none / lentil.pupil / lentil.image (Wavefront.ptype setter accepts
@@ -24,9 +26,11 @@ Inductive exc := EValueError | ETypeError | EIndexError | ENotImplementedError |
 (* far-field propagation routine *)
 Inductive method := Dft | Fft.
 
-(* what the state machine knows about a wavefront: its ptype, and whether any of its fields
-   carries tilt objects (any(field.tilt for field in w.data)) *)
-Record wstate := St { ty : wtype; tilted : bool }.
+(* what the state machine knows about a wavefront: its ptype, and what its field list looks like:
+   Empty = w.data == [], Tilted = any(field.tilt for field in w.data), Plain otherwise *)
+Inductive content := Plain | Tilted | Empty.
+Record wstate := St { ty : wtype; body : content }.
+Definition tilted (s : wstate) : bool := match body s with Tilted => true | _ => false end.
 
 (* what one step does: it returns a new wavefront in state [s], or it raises [e] and the operand
    wavefront (which the program keeps using) is left in state [kept] *)
@@ -56,6 +60,9 @@ Definition exc_code (e : exc) : Z :=
 Definition mcode (m : method) : Z := match m with Dft => 0 | Fft => 1 end.
 Definition method_of_code (z : Z) : option method :=
   match z with 0 => Some Dft | 1 => Some Fft | _ => None end.
+Definition ccode (c : content) : Z := match c with Plain => 0 | Tilted => 1 | Empty => 2 end.
+Definition content_of_code (z : Z) : option content :=
+  match z with 0 => Some Plain | 1 => Some Tilted | 2 => Some Empty | _ => None end.
 Definition bcode (b : bool) : Z := if b then 1 else 0.
 Definition bool_of_code (z : Z) : option bool :=
   match z with 0 => Some false | 1 => Some true | _ => None end.
@@ -68,22 +75,27 @@ Section Machine.
   (* the plane classes; the inductive is generated from the code *)
   Variable C : Type.
 
-  (* one statement of a program:  w = w * Plane(ptype=p, ...)  |  w = w * c(...)  |
-     w = propagate_dft(w, ...) / propagate_fft(w, ...) *)
-  Inductive op := MulType (p : ptype) | MulClass (c : C) | Propagate (m : method).
+  (* one statement of a program:
+       w = w * Plane(ptype=p, ...)  |  w = w * c(...)          (clip = true: the plane's aperture is
+                                                               disjoint from all the light of w)
+       w = propagate_dft(w, ...) / propagate_fft(w, ...)
+       w = <another wavefront, in state s>                     (the planes of the program live on) *)
+  Inductive op := MulType (p : ptype) (clip : bool) | MulClass (c : C) (clip : bool)
+                | Propagate (m : method) | Fresh (s : wstate).
 
   (* a transition system: what each kind of step does to a wavefront in a given state *)
   Record machine := {
-    m_mul : wstate -> ptype -> outcome;      (* Plane(ptype=p).multiply(w) *)
-    m_class : C -> wstate -> outcome;        (* c(...).multiply(w) *)
-    m_prop : method -> wstate -> outcome     (* propagate_<m>(w, ...) *)
+    m_mul : wstate -> ptype -> bool -> outcome;      (* Plane(ptype=p).multiply(w) *)
+    m_class : C -> bool -> wstate -> outcome;        (* c(...).multiply(w) *)
+    m_prop : method -> wstate -> outcome             (* propagate_<m>(w, ...) *)
   }.
 
   Definition step (M : machine) (s : wstate) (o : op) : outcome :=
     match o with
-    | MulType p => m_mul M s p
-    | MulClass c => m_class M c s
+    | MulType p clip => m_mul M s p clip
+    | MulClass c clip => m_class M c clip s
     | Propagate m => m_prop M m s
+    | Fresh s' => Yields s'
     end.
 
   (* the state of the wavefront the program goes on with:
@@ -113,37 +125,40 @@ Section Machine.
      [cls_ptype c] the ptype an instance of class c carries (planes.rst)
      A refused operation raises TypeError and leaves the operand as it was (state included).
 
-     The tables say nothing about fitted tilt, and property C08 does not pin it.  Everything about
-     the tilt bit is therefore implementation-defined in the documented machine:
-     [impl]              the tilt bit after an accepted step is whatever the implementation [impl]
-                         gives the wavefront it returns (or keeps) on that step
+     The tables say nothing about the content of a wavefront (fitted tilt, no fields), and
+     property C08 does not pin it.  Everything about it is therefore implementation-defined in the
+     documented machine:
+     [impl]              the content after an accepted step is whatever the implementation [impl]
+                         gives the wavefront it returns on that step
      [fft_refuses_tilt]  propagate_fft refuses (NotImplementedError, operand kept) a wavefront
                          that carries tilt, whatever its type; read off the code by the generator,
                          the direct oracle of the harness accepts either value.
      Types, acceptance, exception class and the state kept by a refused step come from the
-     documentation alone. *)
-  Definition doc_type_outcome (s : wstate) (d : option wtype) (tl : bool) : outcome :=
-    match d with Some t => Yields (St t tl) | None => Raises ETypeError s end.
+     documentation alone - for every content, the empty one included. *)
+  Definition doc_type_outcome (s : wstate) (d : option wtype) (b : content) : outcome :=
+    match d with Some t => Yields (St t b) | None => Raises ETypeError s end.
 
   Definition doc_machine (dmul : wtype -> ptype -> option wtype)
              (dprop : method -> wtype -> option wtype)
              (cls_ptype : C -> ptype) (impl : machine) (fft_refuses_tilt : bool) : machine :=
-    {| m_mul := fun s p => doc_type_outcome s (dmul (ty s) p) (tilted (next (m_mul impl s p)));
-       m_class := fun c s =>
-         doc_type_outcome s (dmul (ty s) (cls_ptype c)) (tilted (next (m_class impl c s)));
+    {| m_mul := fun s p clip =>
+         doc_type_outcome s (dmul (ty s) p) (body (next (m_mul impl s p clip)));
+       m_class := fun c clip s =>
+         doc_type_outcome s (dmul (ty s) (cls_ptype c)) (body (next (m_class impl c clip s)));
        m_prop := fun m s =>
          match m with
          | Fft => if tilted s && fft_refuses_tilt then Raises ENotImplementedError s
-                  else doc_type_outcome s (dprop m (ty s)) (tilted (next (m_prop impl m s)))
-         | Dft => doc_type_outcome s (dprop m (ty s)) (tilted (next (m_prop impl m s)))
+                  else doc_type_outcome s (dprop m (ty s)) (body (next (m_prop impl m s)))
+         | Dft => doc_type_outcome s (dprop m (ty s)) (body (next (m_prop impl m s)))
          end |}.
 End Machine.
 
-Arguments MulType {C} p.
-Arguments MulClass {C} c.
+Arguments MulType {C} p clip.
+Arguments MulClass {C} c clip.
+Arguments Fresh {C} s.
 Arguments Propagate {C} m.
-Arguments m_mul {C} m _ _.
-Arguments m_class {C} m _ _.
+Arguments m_mul {C} m _ _ _.
+Arguments m_class {C} m _ _ _.
 Arguments m_prop {C} m _ _.
 Arguments step {C} M s o.
 Arguments run_program {C} M s ops.
@@ -151,7 +166,7 @@ Arguments final_state {C} M s ops.
 Arguments doc_machine {C} dmul dprop cls_ptype impl fft_refuses_tilt.
 
 (* ---- encoding of traces for the case protocol ---- *)
-Definition estate (s : wstate) : list Z := [wcode (ty s); bcode (tilted s)].
+Definition estate (s : wstate) : list Z := [wcode (ty s); ccode (body s)].
 Definition eoutcome (x : outcome) : list Z :=
   match x with
   | Yields s => 0 :: estate s
